@@ -544,9 +544,36 @@ func (x *Exec) havocModifies(post *State, env *CEnv, pc *ProcContract, n ast.Nod
 				for name, m := range post.maps {
 					if strings.HasPrefix(name, e.Name) {
 						post.maps[name] = x.d.fresh(name, m.Sort)
+						if name == "Alloc" {
+							post.assume(mk("Bool", "(forall ((?r Ref)) (=> (select %s ?r) (select %s ?r)))", m.S, post.maps[name].S))
+						}
 					}
 				}
 			case CCall, CField:
+				if cc, isCall := e.(CCall); isCall && cc.Fn == "anyfield" && len(cc.Args) == 2 {
+					tn, _ := cc.Args[0].(CIdent)
+					fn, _ := cc.Args[1].(CIdent)
+					obj, ok := x.pkg.Types.Scope().Lookup(tn.Name).(*types.TypeName)
+					if !ok {
+						x.cfail(env, "anyfield: unknown type %s", tn.Name)
+					}
+					prefix := "H_" + qualName(namedOf(obj.Type())) + "." + fn.Name + ":"
+					found := false
+					for name, mm := range post.maps {
+						if strings.HasPrefix(name, prefix) {
+							post.maps[name] = x.d.fresh(name, mm.Sort)
+							found = true
+						}
+					}
+					_ = found
+					return
+				}
+				if cc, isCall := e.(CCall); isCall && cc.Fn == "cells" && len(cc.Args) == 1 {
+					so := x.resolveSort(env, cc.Args[0].(CIdent).Name)
+					name := "H_cell:" + so
+					post.maps[name] = x.d.fresh(name, x.heapMap(post, name, so).Sort)
+					return
+				}
 				name, key, elem, ok := x.mapEntry(&penv, e)
 				if !ok {
 					x.cfail(env, "modifies: cannot resolve %v", m)
@@ -556,6 +583,41 @@ func (x *Exec) havocModifies(post *State, env *CEnv, pc *ProcContract, n ast.Nod
 			default:
 				x.cfail(env, "modifies item %q", m)
 			}
+		}()
+	}
+}
+
+// applyGSets: ghost code of the body (gset clauses), executed at the exits of the unit whose
+// body is being verified.
+func (x *Exec) applyGSets(post *State, env *CEnv, pc *ProcContract, n ast.Node) {
+	for _, gs := range pc.GSets {
+		lhs, err1 := ParseCExpr(gs[0])
+		rhs, err2 := ParseCExpr(gs[1])
+		if err1 != nil || err2 != nil {
+			x.contractError(post, "gset", fmt.Errorf("bad gset clause %s = %s", gs[0], gs[1]), n)
+			continue
+		}
+		func() {
+			defer func() {
+				if r := recover(); r != nil {
+					if ce, ok := r.(cevalErr); ok {
+						x.contractError(post, "gset", fmt.Errorf("%s", string(ce)), n)
+						return
+					}
+					panic(r)
+				}
+			}()
+			env.where = "gset " + gs[0]
+			name, keyT, elem, ok := x.mapEntry(env, lhs)
+			if !ok {
+				x.cfail(env, "gset: cannot resolve target %s", gs[0])
+			}
+			v := x.ceval(env, rhs, elem)
+			if v.Sort != elem {
+				x.cfail(env, "gset %s: value has sort %s, field has %s", gs[0], v.Sort, elem)
+			}
+			cur := x.heapMap(post, name, elem)
+			post.maps[name] = tStore(cur, keyT, v)
 		}()
 	}
 }
@@ -610,6 +672,12 @@ func (x *Exec) mapEntry(env *CEnv, e CExpr) (name string, key Term, elem string,
 		}
 		if cn, ce2, ok2 := x.chanStateMap(env.st, e.Fn, key); ok2 {
 			return cn, key, ce2, true
+		}
+		if gn, gs, _, ok2 := x.ghostFieldMap(e.Fn, key); ok2 {
+			return gn, key, gs, true
+		}
+		if e.Fn == "pooled" {
+			return "Pooled", key, "Bool", true
 		}
 		name, elem, ok = x.ifaceStateMap(env, e.Fn, key)
 		return
